@@ -257,7 +257,11 @@ class RaggedArray(IndexableArray, np.lib.mixins.NDArrayOperatorsMixin):
         ), "Reductions on ragged arrays are only supported for the last axis"
 
         if self.size == 0:
-            result = np.full(len(ra), fill_value=ufunc.identity)
+            if ufunc.identity is None:
+                result = np.full(len(ra), fill_value=ufunc.identity)
+            else:
+                # what numpy gives for a row without elements, in numpy's own result type
+                result = np.full(len(ra), fill_value=ufunc.reduce(self.ravel()))
         else:
             # if one or more of the last rows are empty,
             # ignore these when doing reduceat and pad in the end
